@@ -1,5 +1,6 @@
 import Holpy.Common.Sexp
 import Holpy.C15.Model
+import Holpy.C15.Script
 /-
 Line protocol for the C15 model (one s-expression in, one out):
   (solve FUEL CNF VARS RES)     -> (sat ASG) | (unsat CNF PROOFS) | (error KIND)
@@ -14,6 +15,7 @@ Line protocol for the C15 model (one s-expression in, one out):
   (zreplay CNF ((i ...) ...))   -> CNF | none        (replay loop of zChaff.solve / proofrec.solve_cnf)
   (tseitin-hyps FORM (n ...) (FORM ...)) -> (FORM ...) | none   (hypotheses of encode's theorem)
   (tseitin-unfixed FORM (FORM ...)) -> CNF | none   (naming x1..xn regardless of the formula)
+  (tseitin-script FORM (n ...) (FORM ...) TGT) -> ((rule (FORM ...) FORM) | (rule none) ...) | none   (lines of encode's proof script, checked)
 FORM = (atom n) | tt | ff | (not F) | (and F F) | (or F F) | (imp F F) | (iff F F)
 CNF = (CLAUSE ...), CLAUSE = ((name T|F) ...), ASG = ((name T|F) ...), PROOFS = ((id (i ...)) ...)
 -/
@@ -130,6 +132,16 @@ def handle (line : String) : String :=
       | some hs => toString (Sexp.list (hs.map formTo))
       | none => "none"
     | _, _, _ => "bad-op"
+  | some (.list [.atom "tseitin-script", f, extra, order, tgt]) =>
+    match formOf f, natsOf extra, (do (← order.toList?).mapM formOf), formOf tgt with
+    | some f, some e, some o, some t =>
+      match encodeScript f e o t with
+      | some p => toString (Sexp.list (p.lines.map fun (r, s) =>
+          match s with
+          | some (hs, c) => Sexp.list [.atom r, .list (hs.map formTo), formTo c]
+          | none => Sexp.list [.atom r, .atom "none"]))
+      | none => "none"
+    | _, _, _, _ => "bad-op"
   | some (.list [.atom "tseitin-unfixed", f, order]) =>
     match formOf f, (do (← order.toList?).mapM formOf) with
     | some f, some o =>
